@@ -132,6 +132,14 @@ func originsOf(v ssa.Value, conds map[string]bool, field string, seen map[ssa.Va
 			if isMarshalCall(c) && x.Index == 0 {
 				return []origin{{"PLAIN-MARSHAL", v, conds}}
 			}
+			if sum, ok := encryptHelperSummary[c.Call.StaticCallee()]; ok && c.Call.StaticCallee() != nil {
+				switch sum[x.Index] {
+				case "E":
+					return []origin{{"ENCR", v, conds}}
+				case "P":
+					return []origin{{"PLAIN-BUF", v, conds}}
+				}
+			}
 		}
 	case *ssa.MakeSlice:
 		for _, r := range *x.Referrers() {
@@ -248,8 +256,63 @@ func calleeLabel(c *ssa.Call) string {
 	return core.PathOf(c.Call.Value)
 }
 
+// encryptHelpers: unexported functions of the root package that contain an
+// encrypt call and hand buffers back to their caller instead of sending them
+// (a helper extracted from a write entry). Per []byte result: the kinds of
+// origin it can have ("E" encrypt output or nil, "P" plain buffer, "?" other).
+var encryptHelperSummary map[*ssa.Function]map[int]string
+
+func computeEncryptHelpers(p *core.Prog) {
+	encryptHelperSummary = map[*ssa.Function]map[int]string{}
+	for _, fn := range p.SrcFuncs() {
+		pk := core.FuncPkg(fn)
+		if pk == nil || pk.Path() != core.ModPath || token.IsExported(fn.Name()) {
+			continue
+		}
+		has := false
+		for _, b := range fn.Blocks {
+			for _, in := range b.Instrs {
+				if c, ok := in.(*ssa.Call); ok && isEncryptCall(c) {
+					has = true
+				}
+			}
+		}
+		if !has {
+			continue
+		}
+		sum := map[int]string{}
+		for _, rt := range core.Returns(fn) {
+			for j, res := range rt.Results {
+				if !isByteSlice(res.Type()) {
+					continue
+				}
+				for _, o := range originsOf(res, condsAt(rt.Block(), "srtpOutCtx"), "srtpOutCtx", map[ssa.Value]bool{}) {
+					k := "?"
+					switch o.kind {
+					case "NIL":
+						continue // error returns and "not encrypted" carry nil
+					case "ENCR":
+						k = "E"
+					case "PLAIN-MARSHAL", "PLAIN-BUF":
+						k = "P"
+					}
+					if old, had := sum[j]; had && old != k {
+						sum[j] = "?"
+					} else if !had {
+						sum[j] = k
+					}
+				}
+			}
+		}
+		if len(sum) > 0 {
+			encryptHelperSummary[fn] = sum
+		}
+	}
+}
+
 // writeEntries: functions of the root package that contain an encrypt call.
 func writeEntries(p *core.Prog) []*ssa.Function {
+	computeEncryptHelpers(p)
 	var out []*ssa.Function
 	for _, fn := range p.SrcFuncs() {
 		pk := core.FuncPkg(fn)
@@ -261,6 +324,12 @@ func writeEntries(p *core.Prog) []*ssa.Function {
 			for _, in := range b.Instrs {
 				if c, ok := in.(*ssa.Call); ok && isEncryptCall(c) {
 					has = true
+				}
+				// a caller of an encrypt helper can encrypt as well
+				if c, ok := in.(*ssa.Call); ok {
+					if _, isHelper := encryptHelperSummary[c.Call.StaticCallee()]; isHelper && c.Call.StaticCallee() != nil {
+						has = true
+					}
 				}
 			}
 		}
@@ -313,7 +382,11 @@ func c17EncryptBeforeSink(c *Ctx) {
 			}
 		}
 		if len(escs) == 0 {
-			r.Fail("C17/ENCRYPT-BEFORE-SINK", fnShort(fn)+" no escape", p.Pos(fn.Pos()), "the function encrypts but no buffer leaves it: the rule lost track of the sink")
+			if _, isHelper := encryptHelperSummary[fn]; isHelper {
+				r.OK("C17/ENCRYPT-BEFORE-SINK", fnShort(fn)+" hands its buffers back", p.Pos(fn.Pos()), "helper: the buffers are returned to the callers, where the rule follows them")
+			} else {
+				r.Fail("C17/ENCRYPT-BEFORE-SINK", fnShort(fn)+" no escape", p.Pos(fn.Pos()), "the function encrypts but no buffer leaves it: the rule lost track of the sink")
+			}
 		}
 	}
 	r.Extra["write_entry_functions"] = len(entries)
@@ -885,7 +958,35 @@ func c18SinkBound(c *Ctx) {
 			}
 			r.Check(okDom, "C18/SINK-BOUND", fnShort(fn)+" RTCP length guard", p.Pos(guard.Pos()), "too-long packets return an error; every escape and encrypt call is dominated by the passing edge", "an over-long RTCP packet can be sent (the guard does not dominate every way out, or does not return an error)")
 		default:
-			r.Fail("C18/SINK-BOUND", fnShort(fn)+" shape", p.Pos(fn.Pos()), "write entry point with neither MarshalTo nor Marshal: cannot be classified")
+			// the function delegates marshalling and encryption to a helper that hands the buffers
+			// back (checked above as an entry of its own): what leaves must follow the helper's success
+			var helperCalls []*ssa.Call
+			for _, b := range fn.Blocks {
+				for _, in := range b.Instrs {
+					if call, ok := in.(*ssa.Call); ok && call.Call.StaticCallee() != nil {
+						if _, isHelper := encryptHelperSummary[call.Call.StaticCallee()]; isHelper {
+							helperCalls = append(helperCalls, call)
+						}
+					}
+				}
+			}
+			if len(helperCalls) == 0 {
+				r.Fail("C18/SINK-BOUND", fnShort(fn)+" shape", p.Pos(fn.Pos()), "write entry point with neither MarshalTo nor Marshal: cannot be classified")
+				break
+			}
+			okErr := true
+			for _, e := range escapesOf(fn) {
+				checked := false
+				for _, hc := range helperCalls {
+					if errCheckedBefore(hc, e.at) {
+						checked = true
+					}
+				}
+				if !checked {
+					okErr = false
+				}
+			}
+			r.Check(okErr, "C18/SINK-BOUND", fnShort(fn)+" sends only after its encode helper succeeded", p.Pos(helperCalls[0].Pos()), "every escape sits on the err == nil edge of the helper that marshals and encrypts", "a buffer can leave although the helper that bounds it reported an error")
 		}
 	}
 	// the multicast writer's private copy of the limit comes from the server's
